@@ -40,6 +40,8 @@ func runC06(c *Ctx) {
 	// the error-faithfulness clauses follow errors through helpers: what the engine assumes about the
 	// error constructors is checked on their bodies
 	checkErrorConstructorsNonNil(r, p)
+	// a failure branch records the error it is the branch of (TypedStore.Iterate: key vs value decode error)
+	checkFailureBranchReportsOwnError(r, p, "kvstore")
 	// 1. error discipline
 	checkErrChecked(r, p, "err/checked", errScope{Pkg: pkg, Funcs: append(append([]*ast.FuncDecl{}, tv...), ts...)})
 	for _, fd := range append(append([]*ast.FuncDecl{}, tv...), ts...) {
